@@ -2,8 +2,44 @@
 #pragma once
 #include "soplex.h"
 #include "vf.hpp"
+#include <string>
+#include <vector>
 
-struct SoPlexVerifAccess;   // read-only observer, befriended by SoPlexBase under -DSOPLEX_VERIF (hook H1)
+// read-only observer, befriended by SoPlexBase and SPxMainSM under -DSOPLEX_VERIF (hooks H1/H2). Never writes.
+struct SoPlexVerifAccess
+{
+   template <class R>
+   static std::vector<std::string> histNames(const soplex::SPxMainSM<R>& sm)
+   {
+      std::vector<std::string> v;
+      for(int k = 0; k < sm.m_hist.size(); k++) v.push_back(sm.m_hist[k]->getName());
+      return v;
+   }
+   template <class R> static int rowRangeType(const soplex::SoPlexBase<R>& sp, int i)
+   {
+      return (int) sp._rowTypes[i];
+   }
+   template <class R> static int colRangeType(const soplex::SoPlexBase<R>& sp, int j)
+   {
+      return (int) sp._colTypes[j];
+   }
+   template <class R> static int numRangeTypesRows(const soplex::SoPlexBase<R>& sp)
+   {
+      return sp._rowTypes.size();
+   }
+   template <class R> static int numRangeTypesCols(const soplex::SoPlexBase<R>& sp)
+   {
+      return sp._colTypes.size();
+   }
+   template <class R> static bool isRealLPLoaded(const soplex::SoPlexBase<R>& sp)
+   {
+      return sp._isRealLPLoaded;
+   }
+   template <class R> static bool hasRationalLP(const soplex::SoPlexBase<R>& sp)
+   {
+      return sp._rationalLP != nullptr;
+   }
+};
 
 #ifndef VF_NO_EXTERN_TEMPLATE
 namespace soplex
